@@ -111,7 +111,9 @@ def gen_src(rng, k, counter):
     # (map[box.Key]box.Box[unit.Meters]): the "identical parameter types" clause needs every package of
     # such a type imported and qualified.  name_tuples=0: parameter names are C01/C14's subject.
     g = gen_pkgs.DenseGen(rng, dense=0.2, name_tuples=0.0, ext=ext, std=gen_pkgs.STD + gen_pkgs.C02_STD)
-    m = g.module(src_name="src%d" % k)
+    # a small share of initialism-like method names (Id, Url, ...) among the ordinary ones
+    mnames = ["Do", "Get", "Put", "Close", "List", "Watch", "Apply", "Len", "String", "Each", "unexp"] + rng.sample(INITIALISM_NAMES, 2)
+    m = g.module(src_name="src%d" % k, method_names=mnames)
     gen_pkgs.embedding_shapes(g, m, depth=4, n_random=rng.randint(3, 5))
     counter[1] += g.stats["dense"]
     for i in m["ifaces"]:
@@ -201,6 +203,46 @@ def gen_blank_src(rng, name="src81"):
     return {"mod": MOD, "src": {"path": MOD + "/" + name, "name": name}, "ifaces": ifaces, "ext": ext,
             "std": gen_pkgs.STD + gen_pkgs.C02_STD, "nonascii": False, "_shadow": False,
             "extra_decls": list(gen_pkgs.foreign_extra_decls(ext))}
+
+
+# exported method names that a golint-style name converter (template_funcs.Exported) would REWRITE: whole-name
+# initialisms in mixed case, names starting with one; all-caps spellings as controls
+INITIALISM_NAMES = ["Id", "Url", "Json", "Api", "Uuid", "Http", "Ip", "Html", "Sql", "Xml", "Uri", "Eof", "Ttl", "Uid", "Acl", "Cpu",
+                    "IdOf", "UrlFor", "JsonBody", "ID", "URL", "JSON"]
+
+
+def gen_initialism_src(rng, name="src82"):
+    """Interfaces whose exported method names are initialisms not written in capitals (Id, Url, Json, ...): declared
+    directly, promoted from embedded interfaces (local, alias, depth 2), in generic interfaces.  They are exported
+    methods like any other: every mock, out-of-package ones included, must have each of them exactly once."""
+    ext = [e for e in gen_pkgs.EXT if e["name"] != "mock"]
+    P, S = gen_pkgs._P, gen_pkgs._S
+    T = {"k": "tparam", "n": "T"}
+    K = named("", "Key")
+    err = basic("error")
+    sigs = [lambda: S([], [P("", basic("int"))]), lambda: S([], [P("", basic("string"))]), lambda: S([P("id", basic("int"))], [P("", K), P("", err)]),
+            lambda: S([P("url", basic("string")), P("ids", {"k": "slice", "e": basic("int")})], [], True), lambda: S([P("", K)], [P("", named("", "Local"))]),
+            lambda: S([], [])]
+
+    def I(n, methods, embeds=(), tparams=()):
+        return {"name": n, "tparams": list(tparams), "methods": methods, "embeds": list(embeds), "exported": True}
+    names = list(INITIALISM_NAMES)
+    rng.shuffle(names)
+    base = names[:4] + [x for x in ("Id", "Url") if x not in names[:4]]
+    ifaces = [
+        I("InitBase", [{"n": n, "sig": rng.choice(sigs)()} for n in base]),
+        I("InitAll", [{"n": n, "sig": rng.choice(sigs)()} for n in INITIALISM_NAMES]),
+        I("InitEmb", [{"n": "Extra", "sig": S([], [])}, {"n": "Name", "sig": S([], [P("", basic("string"))])}], [named("", "InitBase")]),
+        I("InitDeep", [{"n": [x for x in names if x not in base][0], "sig": rng.choice(sigs)()}], [{"k": "alias", "pkg": "", "n": "InitAl", "targs": []}, named("fmt", "Stringer")]),
+        I("InitGen", [{"n": "Id", "sig": S([], [P("", T)])}, {"n": "Url", "sig": S([P("v", T)], [P("", basic("string"))])},
+                      {"n": "Api", "sig": S([P("vs", {"k": "slice", "e": T})], [P("", err)], True)}, {"n": "Get", "sig": S([], [P("", T)])}],
+          tparams=[{"n": "T", "c": basic("any"), "cmp": False}]),
+        I("InitGenEmb", [{"n": "Json", "sig": S([], [P("", {"k": "slice", "e": basic("byte")})])}],
+          [named("", "InitGen", [{"k": "tparam", "n": "K"}]), named("fmt", "Stringer")], tparams=[{"n": "K", "c": {"k": "named", "pkg": None, "n": "comparable", "targs": []}, "cmp": True}]),
+    ]
+    return {"mod": MOD, "src": {"path": MOD + "/" + name, "name": name}, "ifaces": ifaces, "ext": ext,
+            "std": gen_pkgs.STD + gen_pkgs.C02_STD, "nonascii": False, "_shadow": True,
+            "extra_decls": list(gen_pkgs.foreign_extra_decls(ext)) + [{"pkg": "", "kind": "alias", "name": "InitAl", "target": named("", "InitEmb")}]}
 
 
 def mockable(m):
@@ -1105,6 +1147,7 @@ def stats(mod, hist):
             bump("configs entries per interface: %d" % (0 if i.get("_plain") else len(i["_entries"])))
             names = [x["n"] for x in i["_ms"]]
             bump("methods in method sets", len(names))
+            bump("methods named like an initialism in mixed case (Id, Url, Json, IdOf, ...)", len([n for n in names if n in INITIALISM_NAMES and not n.isupper()]))
             explicit = {x["n"] for x in i.get("methods", [])}
             bump("methods promoted from embedded interfaces", len([n for n in names if n not in explicit]))
             for x in i["_ms"]:
@@ -1168,6 +1211,7 @@ def check(ctx, only=None, layouts=None):
                 m["_shadow"] = k % 2 == 0      # every other external test package declares same-named types
             srcs.append(gen_rt_src(ctx.rng))
             srcs.append(gen_blank_src(ctx.rng))
+            srcs.append(gen_initialism_src(ctx.rng))
             if j == 0:
                 srcs += corpus_srcs()
             mod = {"mod": MOD, "srcs": srcs}
